@@ -66,6 +66,9 @@ def _tick():
 
 
 # ---------------------------------------------------------------------- views
+empty_str_alloc_fails = z3.Function('allocating_the_empty_str_fails', z3.IntSort(), z3.BoolSort())
+
+
 def eff_name(n):
     return z3.If(n == C_NULL, EMPTY, n)
 
@@ -276,7 +279,17 @@ def make_api(on_alloc=None):
         st.assume(z3.And(z3.Not(P.CALL_RAISES(f, a)), P.CALL(f, a) != C_NULL))
         return [(bad, vobj(C_NULL)), (st, vobj(P.CALL(f, a)))]
 
-    return {'PyDict_New': dict_new, 'PyDict_GetItem': dict_getitem, 'PyDict_GetItemWithError': dict_getitem_with_error,
+    def unicode_from_string(ex, st, vs):
+        """PyUnicode_FromString(""): the empty str (a new reference) or NULL with an exception (allocation)"""
+        if getattr(vs[0], 'lit', None) != '""':
+            raise cfun.CUnsupported('PyUnicode_FromString of %r' % (getattr(vs[0], 'lit', None),))
+        bad = st.clone()
+        bad.assume(empty_str_alloc_fails(len(st.trace)))
+        fail(bad, cfun.EXC_OTHER)
+        st.assume(z3.Not(empty_str_alloc_fails(len(st.trace))))
+        return [(bad, vobj(C_NULL)), (st, vobj(EMPTY))]
+
+    return {'PyUnicode_FromString': unicode_from_string, 'PyDict_New': dict_new, 'PyDict_GetItem': dict_getitem, 'PyDict_GetItemWithError': dict_getitem_with_error,
             'PyDict_SetItem': dict_setitem, 'PyObject_IsTrue': is_true, 'PySequence_Tuple': sequence_tuple,
             'PyTuple_GET_SIZE': tuple_get_size, 'PyTuple_New': tuple_new, 'PyTuple_SET_ITEM': tuple_set_item,
             'PyType_HasFeature': has_feature, 'PyObject_CallMethodObjArgs': call_method, 'providedBy': provided_by,
